@@ -249,12 +249,19 @@ func cmdCheck(args []string) {
 			b.cleanup()
 		}
 	}()
+	// Every distinct (entry,label,known) violation is replayed natively. A label
+	// may have several counterexamples (different inputs / schedules); natively
+	// only some of them are reproducible when the outcome depends on goroutine
+	// scheduling, so up to maxTries of them are tried until one reproduces.
+	const maxTries = 8
+	tries := map[string]int{}
+	unreproduced := map[string]string{}
 	for i, v := range vios {
 		key := v.rep.Entry + "|" + v.rep.Label + "|" + strings.Join(v.rep.Known, ",")
-		if seen[key] {
+		if seen[key] || tries[key] >= maxTries {
 			continue
 		}
-		seen[key] = true
+		tries[key]++
 		path := filepath.Join(replayDir, fmt.Sprintf("%s-%d.json", v.rep.Entry, i))
 		data, _ := json.MarshalIndent(v.rep, "", " ")
 		os.WriteFile(path, data, 0o644)
@@ -287,6 +294,8 @@ func cmdCheck(args []string) {
 		res := b.run(path, v.rep)
 		switch {
 		case res.reproduced:
+			seen[key] = true
+			delete(unreproduced, key)
 			nReproduced++
 			if kf != nil {
 				nKnown++
@@ -302,9 +311,12 @@ func cmdCheck(args []string) {
 				exit = 1
 			}
 		default:
-			nUnreproduced++
-			problems = append(problems, fmt.Sprintf("%s: counterexample for %q did not reproduce natively (%s): engine/stub mismatch; replay %s", v.rep.Entry, v.rep.Label, res.text, path))
+			unreproduced[key] = fmt.Sprintf("%s: counterexample for %q did not reproduce natively (%s): engine/stub mismatch or schedule not reached natively; replay %s", v.rep.Entry, v.rep.Label, res.text, path)
 		}
+	}
+	for _, msg := range unreproduced {
+		nUnreproduced++
+		problems = append(problems, msg)
 	}
 	if len(problems) > 0 && exit == 0 {
 		exit = 2
